@@ -1515,7 +1515,11 @@ impl HasChildren for XmlDocument {
                 }
             }
             XmlItem::Element(_) => {
-                if self.document_element().is_ok() {
+                let other_element = self
+                    .document_element()
+                    .map(|v| v.borrow().id() != value.id())
+                    .unwrap_or(false);
+                if other_element {
                     Err(error::Error::InvalidType)
                 } else {
                     add_or_insert(self, value.clone(), id);
